@@ -505,16 +505,25 @@ func makeTopDict(info *type1.FontInfo) cffDict {
 		topDict[opItalicAngle] = []interface{}{info.ItalicAngle}
 	}
 	if info.UnderlinePosition != defaultUnderlinePosition {
-		topDict[opUnderlinePosition] = []interface{}{int32(info.UnderlinePosition)}
+		topDict[opUnderlinePosition] = []interface{}{dictNumber(float64(info.UnderlinePosition))}
 	}
 	if info.UnderlineThickness != defaultUnderlineThickness {
-		topDict[opUnderlineThickness] = []interface{}{int32(info.UnderlineThickness)}
+		topDict[opUnderlineThickness] = []interface{}{dictNumber(float64(info.UnderlineThickness))}
 	}
 	// if info.IsOutlined {
 	// 	topDict[opPaintType] = []interface{}{int32(2)} // per font
 	// }
 
 	return topDict
+}
+
+// dictNumber returns x as an int32 if x is an integer, and as a float64 (to be
+// written as a real number) otherwise.
+func dictNumber(x float64) interface{} {
+	if x == math.Trunc(x) && math.Abs(x) < 1<<31 {
+		return int32(x)
+	}
+	return x
 }
 
 type privateInfo struct {
